@@ -208,10 +208,13 @@ static inline size_t varintAdaptiveMaxSize(size_t count) {
         return 1; /* Just header byte */
     }
 
-    /* Worst case: TAGGED encoding with 1 byte header + 9 bytes per value
-     * Header: 1 byte encoding type
-     * Data: worst case is tagged (9 bytes per uint64_t) */
-    return 1 + (count * 9);
+    /* Worst case over every encoding the header byte can name:
+     *   TAGGED/DELTA: 1 + 9 per value
+     *   FOR/PFOR:     1 + up to 19 header bytes + 8 per value (+ exceptions)
+     *   DICT:         1 + two 9-byte counts + 9 per dictionary entry
+     *                 + up to 4 index bytes per value (all values unique)
+     * DICT dominates: 19 + 13 per value. */
+    return 32 + (count * 13);
 }
 
 /* Calculate compression ratio.
